@@ -40,6 +40,15 @@ def enumerated(tier, seed):
                         "jds": [[1 + (v % 3 == 0)] for v in range(N)] if sum(1 + (v % 3 == 0) for v in range(N)) % 2 == 0
                         else [[1 + (v % 3 == 0)] for v in range(N - 1)] + [[2 + ((N - 1) % 3 == 0)]],
                         "rng": {"mode": "seed", "seed": seed * 10 + i}})
+    # custom motifs with a large first orbit (a hub with 49, 98, 103, ... leaves), 1..8 instances: the number of instances
+    # is an exact integer quotient whatever the orbit size
+    for size in (7, 49, 98, 103, 107, 161, 187):
+        for cnt in (1, 2, 3, 4, 6, 7, 8):
+            mo = {"kind": "template", "m": size + 1, "edges": [[0, size], [1, size]], "ret": "list", "etype": "tuple",
+                  "orbit_sizes": [size, 1], "cols": [0, 1], "names": ["leaf", "leaf"]}
+            jds = [[1, 0]] * (size * cnt) + [[0, 1]] * cnt
+            out.append({"algo": "motifs", "path": "class" if cnt % 2 else "main_str", "N": len(jds), "jds": jds, "motifs": [mo],
+                        "rng": {"mode": "seed", "seed": seed * 10 + cnt}})
     return out
 
 
